@@ -69,7 +69,13 @@ def main():
     if not args.keep_stderr:
         core.quiet_stderr()
     timer = core.Timer()
-    stats = mod.run(args.tier, seed, args.workers)
+    try:
+        stats = mod.run(args.tier, seed, args.workers)
+    except BaseException:  # noqa: BLE001 - a check that dies must say so (stderr is silenced), and must not look like a verdict
+        import traceback
+        sys.stderr = real_stderr
+        print('SELF-CHECK: the check itself failed:\n' + traceback.format_exc())
+        return 2
     wall = timer.elapsed()
     sys.stderr = real_stderr
 
